@@ -513,6 +513,88 @@ pub fn run_check(replay: Option<Value>) -> i32 {
     });
     rep.absorb(pouts.into_iter().flatten().collect());
 
+    // equations and unknowns listed in different orders: unknowns (z, [v,] u), equations (u' = -u, [v' = -2v,]
+    // 0 = z - u^2).  Column 0 of E = fac*M - J is (0, .., 0, -1)^T: the only admissible pivot is in the last row.
+    let qjobs: Vec<(usize, usize, usize)> = (2..4usize).flat_map(|n| (0..2usize).flat_map(move |j| (0..2usize).map(move |t| (n, j, t)))).collect();
+    let qouts = par_map(qjobs.len(), |k| {
+        let (n, jsrc, ti) = qjobs[k];
+        let key = format!("daeperm:{}.{}.{}", n, jsrc, ti);
+        if let Some(o) = &only {
+            if *o != key {
+                return None;
+            }
+        }
+        let exact = move |t: f64| -> Vec<f64> {
+            let u = 0.8 * (-t).exp();
+            if n == 2 {
+                vec![u * u, u]
+            } else {
+                vec![u * u, 0.5 * (-2.0 * t).exp(), u]
+            }
+        };
+        let p = Prob {
+            name: format!("index-1 DAE, unknowns (z,..,u), equations (u'=-u,..,0=z-u^2), n={}", n),
+            n,
+            f: Arc::new(move |_t, y, d| {
+                let u = y[n - 1];
+                d[0] = -u;
+                if n == 3 {
+                    d[1] = -2.0 * y[1];
+                }
+                d[n - 1] = y[0] - u * u;
+            }),
+            jac: Some(Arc::new(move |_t, y| if n == 2 { vec![0.0, -1.0, 1.0, -2.0 * y[1]] } else { vec![0.0, 0.0, -1.0, 0.0, -2.0, 0.0, 1.0, 0.0, -2.0 * y[2]] })),
+            flow: None,
+            y0: exact(0.0),
+            linear_homogeneous: false,
+        };
+        let (rtol, atol) = if ti == 0 { (1e-5, 1e-8) } else { (1e-8, 1e-11) };
+        let mut c = Cfg::new(Method::RADAU, 0.0, 1.0, &p.y0).tol(rtol, atol);
+        c.user_jac = jsrc == 0;
+        c.mass_storage = MatrixStorage::Full;
+        let massf = move |m: &mut Matrix| {
+            for i in 0..n {
+                for j in 0..n {
+                    m[(i, j)] = 0.0;
+                }
+            }
+            m[(0, n - 1)] = 1.0;
+            if n == 3 {
+                m[(1, 1)] = 1.0;
+            }
+        };
+        let r = run_with(&p, &c, None, Some(&massf));
+        let mut out = CaseOut::default();
+        out.events = r.st.n_ode;
+        let desc = json!({"key": key, "problem": p.name, "rtol": rtol, "atol": atol, "jacobian": if jsrc == 0 { "user" } else { "finite-difference" }, "outcome": r.outcome_name(),
+            "nfev": r.sol().map(|s| s.nfev), "naccpt": r.sol().map(|s| s.naccpt)});
+        match r.sol() {
+            Some(s) if s.status == Status::Success => {
+                let bound = 50.0 * (s.naccpt.max(1) as f64) * (atol + rtol);
+                let mut worst: f64 = 0.0;
+                for (t, y) in s.t.iter().zip(&s.y) {
+                    let ex = exact(*t);
+                    worst = y.iter().zip(&ex).fold(worst, |a, (u, v)| a.max((u - v).abs()));
+                }
+                if worst > bound {
+                    out.violations.push(Violation::new(&key, "dae-perm-accuracy", format!("worst sample error {:e} against the closed form exceeds 50*naccpt*tol = {:e}", worst, bound), desc.clone()).with("mass", "permuted").with("n", n));
+                }
+                out.validated += s.t.len() as u64;
+                out.tag("dae-permuted");
+            }
+            _ => out.violations.push(Violation::new(&key, "outcome", format!("index-1 DAE with permuted equations: run ended with {}", r.outcome_name()), desc.clone()).with("mass", "permuted").with("n", n)),
+        }
+        let mut h = crate::util::Fp::default();
+        h.s(&key);
+        if let Some(s) = r.sol() {
+            h.fs(s.y.last().unwrap());
+        }
+        out.fp = Some(h.as_u128());
+        out.sample = Some(desc);
+        Some(out)
+    });
+    rep.absorb(qouts.into_iter().flatten().collect());
+
     // Jacobians whose columns are dominated by an off-diagonal entry ("lag" chains y0' = -y0,
     // y_i' = k (y_{i-1} - y_i)): once the step has grown, the iteration matrices need row interchanges,
     // whose fill-in lies outside the band.  Full and Banded storage must still agree bit for bit, and an
@@ -675,6 +757,30 @@ pub fn run_check(replay: Option<Value>) -> i32 {
         Some(out)
     });
     rep.absorb(souts.into_iter().flatten().collect());
+
+    // the two ways of obtaining a low-level solver with its documented defaults agree field by field
+    {
+        use ivp::methods::{BDF, DOP853, DOPRI5, RADAU, RK23, RK4};
+        let pairs: Vec<(&str, String, String)> = vec![
+            ("RADAU", format!("{:?}", RADAU::default()), format!("{:?}", RADAU::builder().build())),
+            ("BDF", format!("{:?}", BDF::default()), format!("{:?}", BDF::builder().build())),
+            ("DOP853", format!("{:?}", DOP853::default()), format!("{:?}", DOP853::builder().build())),
+            ("DOPRI5", format!("{:?}", DOPRI5::default()), format!("{:?}", DOPRI5::builder().build())),
+            ("RK23", format!("{:?}", RK23::default()), format!("{:?}", RK23::builder().build())),
+            ("RK4", format!("{:?}", RK4::default()), format!("{:?}", RK4::builder().build())),
+        ];
+        for (name, d, b) in pairs {
+            rep.evaluations += 1;
+            let key = format!("defaults:{}", name);
+            if only.as_ref().map(|o| *o != key).unwrap_or(false) {
+                continue;
+            }
+            if d != b {
+                rep.violations.push(Violation::new(&key, "builder-defaults", format!("{}::default() is {} but {}::builder().build() is {}", name, d, name, b), json!({"key": key})).with("mass", "defaults").with("n", 0));
+            }
+            *rep.tags.entry("builder-defaults".into()).or_insert(0) += 1;
+        }
+    }
     if only.is_some() {
         for v in &rep.violations {
             println!("replay: VIOLATED [{}]: {}\n{}", v.sig["check"], v.msg, serde_json::to_string_pretty(&v.case).unwrap());
